@@ -296,7 +296,10 @@ func (p *Plan) collectInto(parentType *Object, selectionSet *ast.SelectionSet, v
 				// first AST's sub-selection, which is correct because
 				// validation rules guarantee mergeable selections refer
 				// to the same field).
-				sp.fields[idx].fieldASTs = append(sp.fields[idx].fieldASTs, sel)
+				merged := sp.fields[idx]
+				merged.fieldASTs = append(merged.fieldASTs, sel)
+				// The response key is present when any of its occurrences is included.
+				merged.skipPredicate = orPredicates(merged.skipPredicate, andPredicates(parentPred, pred))
 				continue
 			}
 			fieldName := ""
@@ -380,6 +383,21 @@ func andPredicates(a, b func(map[string]interface{}) bool) func(map[string]inter
 	return func(vars map[string]interface{}) bool {
 		if !a(vars) {
 			return false
+		}
+		return b(vars)
+	}
+}
+
+// orPredicates returns a predicate that is true when either input is
+// true. nil is the constant-true predicate, so the result is nil as soon
+// as one side is unconditional.
+func orPredicates(a, b func(map[string]interface{}) bool) func(map[string]interface{}) bool {
+	if a == nil || b == nil {
+		return nil
+	}
+	return func(vars map[string]interface{}) bool {
+		if a(vars) {
+			return true
 		}
 		return b(vars)
 	}
